@@ -9,6 +9,7 @@ and then use trimesh operations on them at any point.
 """
 
 import abc
+from copy import deepcopy
 
 import numpy as np
 
@@ -148,7 +149,7 @@ class Primitive(Trimesh):
             primitive_copy.visual = self.visual.copy()
 
         # copy metadata
-        primitive_copy.metadata = self.metadata.copy()
+        primitive_copy.metadata = deepcopy(self.metadata)
 
         for k, v in self._data.data.items():
             if k not in primitive_copy._data:
